@@ -664,44 +664,30 @@ def rule_templates(rep, idx):
 # --------------------------------------------------------------------------------------------------
 
 def rule_labels(rep, idx):
-    rep.rule('R4', 'generated-label namespace: every label the compiler invents (loop/branch labels, entry label, exit label, constant pool, '
-             'string pool) starts with a character that cannot start an X identifier, so no procedure name can collide with it', floor=5)
-    # what can start an identifier?
+    rep.rule('R4', 'generated-label namespace: every label name that reaches a Label / Func / Proc / label-operand directive is traced back '
+             '(through parameters, locals, members, getters, generators) to its origin; a name the compiler makes up (literal, '
+             'concatenation, format) cannot be an X identifier -- it starts with a character that cannot start one or contains one '
+             'that cannot occur in one -- and a name taken from the source is used unchanged; so no user name can collide', floor=8)
+    from ..labelflow import LabelFlow
+    # what can start / continue an identifier?  (the analysis assumes isalpha / isalnum or '_')
     rt = idx.func('xcmp::Lexer::readToken')
-    alpha = any(callee_of(c)[1] == 'isalpha' for c in cast.calls_in(rt.body))
-    if not alpha:
-        raise AnalysisBroken('xcmp::Lexer::readToken no longer starts identifiers with std::isalpha: re-derive the identifier-start set')
-    lits = []
-    for f in idx.all_funcs():
-        if f.body is None or not f.qname.startswith('xcmp::'):
+    names = {callee_of(c)[1] for c in cast.calls_in(rt.body)}
+    if not ({'isalpha', 'isalnum'} <= names):
+        raise AnalysisBroken('xcmp::Lexer::readToken no longer forms identifiers with std::isalpha / std::isalnum: re-derive the identifier alphabet')
+    lf = LabelFlow(idx)
+    sinks = lf.sinks()
+    if len(sinks) < 10:
+        raise AnalysisBroken('only %d label-directive constructions found in xcmp:: (confirmed: 13)' % len(sinks))
+    for o in sorted(lf.run(), key=lambda o: o.key()):
+        ok, why = o.verdict()
+        key = o.key()
+        if o.kind == 'literal' and o.parts[0][1] == 'main':
+            rep.add('R4', key, True, o.where, 'reference to the entry procedure `main`, which the X language requires the user to define', nontrivial=False)
             continue
-        if f.qname == 'xcmp::CodeBuffer::getLabel':
-            for x in walk(f.body):
-                if x['kind'] == 'StringLiteral':
-                    lits.append((cast.string_lit(x), pos(x), f.qname, 'prefix of generated labels'))
-        for c in cast.calls_in(f.body):
-            kind, name, did, obj = callee_of(c)
-            if name in ('genLabel', 'genBR', 'genBRZ', 'genBRN', 'genLDAP', 'genDataLabel', 'genLDAC', 'genLDBC', 'genLDAM', 'genLDBM', 'genSTAM'):
-                a = cast.call_args(c)
-                if a and any(x['kind'] == 'StringLiteral' for x in walk(a[0])) and 'basic_string' in (dqt(a[0]) + qt(a[0])):
-                    for x in walk(a[0]):
-                        if x['kind'] == 'StringLiteral':
-                            s_ = cast.string_lit(x)
-                            if s_ != 'main':
-                                lits.append((s_, pos(x), f.qname, 'argument of %s' % name))
-        # format strings whose result names a data label
-        if f.qname in ('xcmp::CodeBuffer::genConstPool', 'xcmp::CodeBuffer::genString'):
-            for (w_, lit, need, got) in cast.format_arity(idx, f):
-                lits.append((lit, w_, f.qname, 'format of pool labels'))
-    seen = set()
-    for lit, where, fn, role in lits:
-        if (lit, fn) in seen:
+        if ok is None:
+            rep.undecided('R4', key, why, o.where)
             continue
-        seen.add((lit, fn))
-        ok = bool(lit) and not lit[0].isalpha()
-        rep.add('R4', '%s:%r' % (fn, lit), ok, where + ' ' + fn,
-                '%s %r %s' % (role, lit, 'cannot be an identifier' if ok else 'can also be the name of a user procedure (e.g. proc %s0() / proc %s())' % (lit, lit)),
-                nontrivial=False)
+        rep.add('R4', key, ok, o.where, why, nontrivial=(o.kind != 'source'))
 
 
 def rule_strings(rep, idx):
